@@ -104,7 +104,7 @@ class FnObj(Fn):
             self.state.append(spec['out'])
         self.list_externals = dict(spec.get('list_externals', {}))
         self.known_extra = dict(state=list(self.state), attrs={a: self.attrs[a] for a in self.state},
-                                returns=spec.get('returns', 's'))
+                                returns=spec.get('returns', 's'), opt_result=self.opt_result)
 
     def enter_inner(self, spec, src_lines):
         """spec['inner']: translate the function of that name defined in the body of spec['func'] (a closure handed to a
